@@ -3,6 +3,7 @@ package main
 import (
 	"github.com/simimpact/srsim/pkg/engine/event/handler"
 	"github.com/simimpact/srsim/pkg/engine/logging"
+	"math"
 
 	"verif/harness/term"
 )
@@ -205,6 +206,11 @@ func genEvents(r *term.Rng, idx int) term.T {
 	subs := make([]int, nh)
 	// a small priority pool makes equal and negative priorities the norm
 	prios := []int64{-2, -1, 0, 0, 1, 5}
+	if r.Chance(1, 5) {
+		// extreme but valid priorities ("always first" / "always last" sentinels): differences that do
+		// not fit an int must still compare correctly
+		prios = []int64{math.MinInt64, math.MinInt64 + 1, -100, -1, 0, 1, 100, math.MaxInt64 - 1, math.MaxInt64}
+	}
 	totalReacts := 0
 	if r.Chance(9, 10) {
 		ops = append(ops, term.C("OInit", term.L(term.I(100), term.I(101))))
